@@ -112,6 +112,41 @@ SchurOK ==
      (NonSingular(Aff) /\ NonSingular(Mb)) =>
         MMulG(SubM(Adj(Mb), mm, mm), SchurNum(mat, m, f)) = Iden(Len(m), GMul(Det(Mb), Det(Aff)))
 
+(* ---- adjoints of LinSolve (x = A^-1 b) and Inverse (B = A^-1), in integers scaled by det ---- *)
+(* seeds and right-hand sides: fixed small Gaussian-integer vectors / matrices                         *)
+BVec(n, cx) == Tup([i \in 1..n |-> <<(2 * i - 3), IF cx THEN (i % 2) ELSE 0>>])
+WVec(n, cx) == Tup([i \in 1..n |-> <<(3 - i), IF cx THEN (1 - i) ELSE 0>>])
+WMat(n, cx) == Tup([i \in 1..n |-> Tup([j \in 1..n |-> <<(i - 2 * j + 1), IF cx THEN ((i + j) % 2) ELSE 0>>])])
+MatVecG(X, v) == Tup([i \in 1..Len(X) |-> GSum(Tup([l \in 1..Len(v) |-> GMul(X[i][l], v[l])]))])
+DotG(u, v) == GSum(Tup([l \in 1..Len(v) |-> GMul(u[l], v[l])]))
+XNum(A, b) == MatVecG(Adj(A), b)                      \* det * x
+LamNum(A, w) == MatVecG(Adj(MT(A)), w)                \* det * lambda, lambda = A^-T w
+UnitV(n, k) == Tup([i \in 1..n |-> IF i = k THEN <<1, 0>> ELSE GZero])
+(* LinSolve: sensitivity dA = -lambda x', db = lambda.  Adjoint identity (holomorphic, so as complex numbers): for every   *)
+(* unit direction E_ij of A and e_k of b:  sum(dA * V) + db . vb = w . D y  with  D y = A^-1 (vb - V x).                    *)
+(* Multiplied by det^2:  -lam_i x_j + det lam_k  =  w . adj (det vb - V xnum)                                               *)
+LinSolveAdjointOK ==
+  NonSingular(mat) =>
+    \A cx \in BOOLEAN :
+      LET n == N(mat)  b == BVec(n, cx)  w == WVec(n, cx)  xn == XNum(mat, b)  ln == LamNum(mat, w)  d == Det(mat) IN
+      /\ \A i \in 1..n, j \in 1..n :       \* direction E_ij in A
+           GNeg(GMul(ln[i], xn[j])) = DotG(w, MatVecG(Adj(mat), Tup([r \in 1..n |-> IF r = i THEN GNeg(xn[j]) ELSE GZero])))
+      /\ \A k \in 1..n :                    \* direction e_k in b
+           GMul(d, ln[k]) = GMul(d, DotG(w, MatVecG(Adj(mat), UnitV(n, k))))
+(* Inverse: dA = -B' W B'; identity sum(dA * E_ij) = sum(W * D B), D B = -B E_ij B; times det^2 *)
+InverseAdjointOK ==
+  NonSingular(mat) =>
+    \A cx \in BOOLEAN :
+      LET n == N(mat)  W == WMat(n, cx)  Ad == Adj(mat)
+          dAn == MMulG(MMulG(MT(Ad), W), MT(Ad)) IN     \* -det^2 dA
+      \A i \in 1..n, j \in 1..n :
+         dAn[i][j] = GSum(Tup([p \in 1..n |-> GSum(Tup([q \in 1..n |-> GMul(W[p][q], GMul(Ad[p][i], Ad[j][q]))]))]))
+EmitAdj == (done /\ NonSingular(mat)) =>
+  PrintT(<<"ADJ", ToJson([A |-> mat, cls |-> [cplx |-> IsCplx(mat), sym |-> IsSym(mat), herm |-> IsHerm(mat), hpd |-> IsHPD(mat)], det |-> Det(mat),
+        cases |-> {[cx |-> cx, b |-> BVec(N(mat), cx), w |-> WVec(N(mat), cx), W |-> WMat(N(mat), cx),
+                    xnum |-> XNum(mat, BVec(N(mat), cx)), lamnum |-> LamNum(mat, WVec(N(mat), cx)),
+                    dAinvnum |-> MMulG(MMulG(MT(Adj(mat)), WMat(N(mat), cx)), MT(Adj(mat)))] : cx \in BOOLEAN}])>>)
+
 EmitLS == (done /\ NonSingular(mat)) =>
   PrintT(<<"LS", ToJson([A |-> mat,
         cls |-> [cplx |-> IsCplx(mat), diag |-> IsDiag(mat), sym |-> IsSym(mat), herm |-> IsHerm(mat), hpd |-> IsHPD(mat)],
